@@ -55,7 +55,7 @@ class C07(common.SpecCheck):
 
     def attribute(self, spec, meta, inputs, results, v):
         # out-of-extent coordinates of class-A specs are C04's known finding K2 (attributed there by counterfactual)
-        if v.vclass == "result_not_in_original_coordinates" and meta.get("class") == "A":
+        if v.vclass == "result_not_in_original_coordinates" and common.is_affine(meta):
             run = results[v.hseeds[0]]["runs"][v.detail["input_set"]]
             cf = (run.get("cf") or {})
             for name in ("K2", "K1+K2"):
@@ -65,7 +65,7 @@ class C07(common.SpecCheck):
 
     def unit_args(self, spec, meta, inputs):
         a = super().unit_args(spec, meta, inputs)
-        if meta.get("class") == "A":
+        if common.is_affine(meta):
             a["counterfactuals"] = [["K2"], ["K1", "K2"]]
         return a
 
